@@ -94,13 +94,20 @@ func Cases() []Case {
 				mut("clock-decreasing", true, func(v *ver) { v.Times = map[string]uint64{"bugs-create": 1, "bugs-edit": 1} })
 				mut("clock-one-decreasing", true, func(v *ver) { v.Times["bugs-edit"] = 2 })
 				mut("clock-dropped", true, func(v *ver) { delete(v.Times, "bugs-edit") })
+				// a clock dropped while another name appears: the number of clocks does not shrink
+				mut("clock-renamed", true, func(v *ver) { delete(v.Times, "bugs-edit"); v.Times["boards-edit"] = 50 })
+				mut("clock-both-renamed", true, func(v *ver) { v.Times = map[string]uint64{"boards-create": 50, "boards-edit": 50} })
+				mut("clock-dropped-more-added", true, func(v *ver) {
+					delete(v.Times, "bugs-create")
+					v.Times["boards-create"], v.Times["boards-edit"] = 50, 50
+				})
 				mut("clock-all-dropped", true, func(v *ver) { v.Times = map[string]uint64{} })
 				mut("clock-equal", false, func(v *ver) { v.Times = map[string]uint64{"bugs-create": uint64(10 + pos - 1), "bugs-edit": uint64(10 + pos - 1)} })
 			}
 		}
 	}
 	// the same per-version defects appended on top of an identity the victim already has
-	for _, name := range []string{"control", "no-name-no-login", "name-unsafe", "clock-decreasing", "clock-dropped"} {
+	for _, name := range []string{"control", "no-name-no-login", "name-unsafe", "clock-decreasing", "clock-dropped", "clock-renamed"} {
 		v := good(7, 1000)
 		c := Case{Name: "extend-local/" + name, OnLocal: true, MustReject: name != "control", Control: name == "control"}
 		switch name {
@@ -112,6 +119,8 @@ func Cases() []Case {
 			v.Times = map[string]uint64{"bugs-create": 1, "bugs-edit": 1}
 		case "clock-dropped":
 			v.Times = map[string]uint64{}
+		case "clock-renamed":
+			v.Times = map[string]uint64{"bugs-create": 1000, "boards-edit": 1000}
 		}
 		c.Chain = []ver{v}
 		out = append(out, c)
